@@ -210,9 +210,16 @@ def outcome_key(rep, c):
     return (tr.ret, rep[idx[1]][0], tuple(rep[didx[1]]), tuple(tr.sent_bytes()), tuple(e[1] for e in tr.events if e[0] == "state"))
 
 
+CBMC_FOR = {"C04": ["checksize", "footer", "getbits"], "C14": ["footer"]}
+
+
 def run(pid, tier):
     rep = vlib.Report(pid, tier)
     Pp = PROPS[pid]
+    cb_handle = None
+    if pid in CBMC_FOR:
+        import cbmccheck
+        cb_handle = cbmccheck.start(CBMC_FOR[pid])      # symbolic tie of small C functions; runs while the rest proceeds
     proved = True
     if Pp["theorems"]:
         proved = vlib.prove(rep, Pp["modules"], Pp["theorems"], extra_targets=["rtrdriver"])
@@ -350,6 +357,39 @@ def run(pid, tier):
                        "the transport delivers at least one byte per successful recv/send call"]
 
     rep.cov["msan_runs"] = msan_n
+    cb_failed = []
+    if cb_handle is not None:
+        cb = cbmccheck.join(cb_handle)
+        rep.cov["cbmc"] = {k: {"ok": v["ok"], "seconds": v["seconds"], "what": cbmccheck.OBLIGATIONS[k]} for k, v in cb.items()}
+        rep.cov.setdefault("trusted_base", []).append("cbmc 6.11 (symbolic tie of rtr_pdu_check_size / byte-order conversions / lrtr_get_bits to their specifications)")
+        for k, v in cb.items():
+            rep.obligations["cbmc:" + k] = v["ok"]
+            if not v["ok"]:
+                cb_failed.append((k, v))
+        # a counterexample of the size check is a PDU: run it through the real receive path like any other case
+        for k, v in cb_failed:
+            if k == "checksize" and v["inputs"]:
+                cx = rtrgen.SyncCase()
+                pdu = cbmccheck.checksize_pdu(v["inputs"])
+                cx.ops = ["sock 3600 7200 600 1", "set version %d" % (v["inputs"].get("in_ver", 1) & 1), "set session 7", "set serial 5", "set reqsess 0",
+                          "set lastupdate 900", "set state 3", "set hasrecv 1", "tape rx:" + pdu.hex(), "show", "dump", "run sync", "show", "dump"]
+                cx.meta = {"mut": "cbmc:checksize counterexample"}
+                for c, irep, mrep, crash in run_cases(exe, drv, [cx]):
+                    if crash:
+                        stats["crashes"] += 1
+                        crashes.append((c, crash))
+                    else:
+                        flat_i = [l for x in irep for l in x]
+                        flat_m = [l for x in mrep for l in x]
+                        d = vlib.first_divergence(flat_i, flat_m)
+                        fs, tr = sync_oracle(c, irep)
+                        for f in fs:
+                            fails.append((c, f))
+                        if d is not None:
+                            # the proven model rejects what the specification rejects: accepting it is C04's own clause
+                            fails.append((c, ("C04", "a PDU whose length is inconsistent with its type is treated differently from the size specification "
+                                              "(cbmc counterexample of rtr_pdu_check_size; impl: %s | model: %s)" % (
+                                                  flat_i[d][:120] if d < len(flat_i) else "<eof>", flat_m[d][:120] if d < len(flat_m) else "<eof>"))))
     conv_divs = []
     if pid == "C14":
         import pduconvcheck
@@ -393,7 +433,11 @@ def run(pid, tier):
         rep.build_log = "%d of %d cases diverge; first: mutation %s, reply line %d\n impl : %s\n model: %s\nops:\n%s" % (
             len(divergences), len(allcases), c.meta.get("mut"), d, a[:400], b[:400], "\n".join(c.ops))
         vlib.proof_failure(rep, "correspondence rtr (model RtrModel.Rtr vs packets.c/rtr.c/transport.c) diverges")
-    if not proved and not mine and not crashes and not divergences and not msan_bad:
+    if cb_failed and not mine and not crashes and not msan_bad:
+        rep.build_log = "\n\n".join("== cbmc obligation %s: %s\nfailed properties: %s\ncounterexample inputs: %s\ncommand: %s\n%s" % (
+            k, cbmccheck.OBLIGATIONS[k], "; ".join(v["failed"]), v["inputs"], v.get("cmd"), v["log"][-800:]) for k, v in cb_failed)
+        vlib.proof_failure(rep, "\n".join("cbmc:%s (%s)" % (k, cbmccheck.OBLIGATIONS[k]) for k, v in cb_failed))
+    elif not proved and not mine and not crashes and not divergences and not msan_bad:
         vlib.proof_failure(rep, "\n".join(t for t, ok in rep.obligations.items() if not ok))
     rep.extra = {"divergences": len(divergences), "fails": len(fails)}
     return rep.finish()
